@@ -122,6 +122,64 @@ def tus(tier, seed, table=None):
             body += '}\n'
             res.append(dict(name='%s_shift_p%d_%d' % (table, path, k), src=body, compiler='clang++' if k % 3 == 1 else 'g++',
                             defines=['CNL_VERIF_OVERFLOW_PATH=%d' % path]))
+    res += extra_tus(tier, seed, table)
+    return res
+
+
+def _tu(table, idx, lines, extra_inc=''):
+    hdr = __file__.replace('C07.py', 'C06.py').replace('.py', '.h')
+    return '#define VH_TABLE "%s"\n#include "%s"\n%sint main(){ install(); Rng rng(seed_from_env()+%d);\n%s}\n' % (
+        table, hdr, extra_inc, idx, ''.join('  ' + l + '\n' for l in lines))
+
+
+W8 = ['i8', 'u8', 'i16', 'u16', 'i32', 'u32', 'i64', 'u64']
+# scaled_integer<S, power<eS, rS>> -> scaled_integer<overflow_integer<D, Tag>, power<eD, rD>>, rS != rD
+# (the powers fit the promoted source type: the library asserts it)
+SXR = [('i32', 0, 2, 'i32', -3, 10), ('i32', 4, 2, 'i32', -3, 10), ('i32', 0, 2, 'i32', -1, 10), ('i64', 0, 2, 'i32', -3, 10),
+       ('i64', 0, 2, 'i64', -6, 10), ('i16', 0, 2, 'i16', -2, 10), ('i8', 3, 2, 'i32', -2, 10), ('u32', 0, 2, 'u32', -3, 10),
+       ('u32', 2, 2, 'i32', -1, 10), ('i32', -4, 2, 'i32', -2, 10), ('i32', 0, 2, 'i32', 2, 10), ('i32', 0, 2, 'u32', -2, 10),
+       ('i32', -3, 10, 'i32', -8, 2), ('i32', 0, 10, 'i32', -10, 2), ('i32', 2, 10, 'i16', 0, 2), ('i64', -2, 10, 'i64', -20, 2),
+       ('u8', 1, 10, 'u8', -1, 2), ('i32', 3, 10, 'i64', -4, 2), ('u16', 0, 2, 'i8', -1, 10), ('i64', 10, 2, 'i64', -9, 10),
+       ('i32', 0, 2, 'i32', -2, 3), ('u64', 0, 3, 'u64', -5, 2), ('i16', 1, 10, 'i32', 1, 2), ('i32', -2, 10, 'i32', 3, 2)]
+
+
+def extra_tus(tier, seed, table):
+    """operand kinds beyond tagged operators on built-in operands: overflow_integer converted as a number,
+    radix-changing scaled_integer conversions into an overflow_integer representation"""
+    res = []
+    tags3 = ['sat', 'thr', 'trp']
+    # -- conversions between overflow_integers / to built-ins / from built-ins and other wrappers: all 64 pairs of the
+    #    8..64-bit types, the tag rotating with the seed; the signed -> unsigned pairs of the same or a greater width
+    #    (where `digits` suggests "fits" and the sign says otherwise) under every tag
+    inst = []
+    for i, (a, b) in enumerate((a, b) for a in W8 for b in W8):
+        s2u = a[0] == 'i' and b[0] == 'u' and int(b[1:]) >= int(a[1:])
+        for k, tg in enumerate(tags3):
+            if s2u or k == (i + seed) % 3 or tier == 'thorough':
+                inst.append('wcvt<%s, %s, %s>(rng);' % (TAGS[tg], CT[a], CT[b]))
+    per = 14
+    for i in range(0, len(inst), per):
+        k = i // per
+        res.append(dict(name='%s_wcvt_%d' % (table, k), src=_tu(table, 1100 + i, inst[i:i + per]), compiler='clang++' if k % 3 == 1 else 'g++',
+                        defines=['CNL_VERIF_OVERFLOW_PATH=%d' % (1 + k % 2)]))
+    el = []
+    for j, (ed, n, ds) in enumerate([(20, 'int', ['u8', 'i16', 'u32', 'u64', 'i8']), (12, 'unsigned', ['i8', 'u8', 'i16']),
+                                     (40, 'int', ['u32', 'i32', 'u64', 'i16']), (31, 'int', ['u32', 'u64', 'i16']),
+                                     (7, 'std::int8_t', ['u8', 'u16', 'u64'])]):
+        for m, d in enumerate(ds):
+            el.append('wcvt_elastic<%s, %d, %s, %s>(rng);' % (TAGS[tags3[(j + m + seed) % 3]], ed, n, CT[d]))
+    res.append(dict(name='%s_wcvt_elastic' % table, src=_tu(table, 1190, el), compiler='g++', defines=['CNL_VERIF_OVERFLOW_PATH=1']))
+    # -- radix-changing scaled conversions, every combination under two of the three tags per seed, both paths
+    sx = []
+    for i, c in enumerate(SXR):
+        for k, tg in enumerate(tags3):
+            if k != (i + seed) % 3 or tier == 'thorough':
+                sx.append('sxr<%s, %s, %d, %d, %s, %d, %d>(rng);' % ((TAGS[tg], CT[c[0]]) + c[1:3] + (CT[c[3]],) + c[4:]))
+    per = 12
+    for i in range(0, len(sx), per):
+        k = i // per
+        res.append(dict(name='%s_sxr_%d' % (table, k), src=_tu(table, 1200 + i, sx[i:i + per]), compiler='clang++' if k % 3 == 2 else 'g++',
+                        defines=['CNL_VERIF_OVERFLOW_PATH=%d' % (1 + k % 2)]))
     return res
 
 
@@ -129,4 +187,8 @@ RULE = ("per compiled (tag, path, Lhs, Rhs): boundary lattices of both operand t
         "predicates' branch conditions (max / r, lowest / r and neighbours) and seeded random values; shifts additionally for every left operand type with "
         "counts 0..2, digits-2..digits+1, width-1..width+2, 2*width-1..2*width+1, 127..129, 255, 256 of the promoted left operand; floating-point sources: "
         "every format (float, double, long double) x every destination type, the limits and the powers of two they round to with +-1, +-2 ulp and "
-        "fractional neighbours, zero and the smallest magnitudes; non-trivial = divisor non-zero and shift count non-negative")
+        "fractional neighbours, zero and the smallest magnitudes; overflow_integer converted as a number (constructor from a related wrapper, assignment, "
+        "function argument, conversion operator to a built-in, constructor from a built-in / rounding_integer / elastic_integer) for all 64 pairs of 8..64-bit "
+        "types, signed -> unsigned of the same or a greater width under every tag, the limits of the destination and their neighbours; scaled_integer "
+        "conversions between radixes 2, 3 and 10 into an overflow_integer representation with the values that solve max / factor for every stage; "
+        "non-trivial = divisor non-zero and shift count non-negative")
